@@ -235,3 +235,353 @@ class AccessRuleCheck(Job):
 
 
 JOBS["C08"] = [AccessRuleCheck(1), AccessRuleCheck(2, tiers=("thorough",))]
+
+
+# ---------------------------------------------------------------------------------------------------------------
+# the two leaf predicates over the auth-zone stack (what `Require` / `AmountOf` mean against the visible zones)
+ZONES = ["A", "P", "Q", "G", "H"]          # actor's own zone, its parent chain P -> Q, the global caller's chain G -> H
+NPROOFS = {"A": 1, "P": 2, "Q": 1, "G": 1, "H": 1}
+RES_NONE = 9
+
+
+def res_v(t):
+    return StructV("ResourceAddress", [IntV(t, "u8")])
+
+
+def gid_v(r, i):
+    return StructV("NonFungibleGlobalId", [res_v(r), StructV("NonFungibleLocalId", [IntV(i, "u64")])])
+
+
+def node_v(k):
+    return StructV("NodeId", [IntV(k, "u8")])
+
+
+class AuthZoneStack(Job):
+    """auth_zone_stack_matches_rule / auth_zone_stack_has_amount with the REAL traversal (auth_zone_stack_matches,
+    global_auth_zone_matches, proof_matches, AuthZone::local_implicit_non_fungible_proofs); the kernel substate reads
+    answer from a symbolic table of zones and the native proof getters from a symbolic table of proofs."""
+    crate = "radix-engine"
+    query_timeout_s = 120
+    max_unroll = 40
+    fresh_capacity = 3
+    case_keys = ("p", "q", "g", "h")
+
+    def __init__(self, kind):
+        self.kind = kind
+        fn = "auth_zone_stack_matches_rule" if kind == "rule" else "auth_zone_stack_has_amount"
+        self.fn = fn
+        self.name = "c08m::" + fn
+        common = ("over the real stack traversal: the actor's own zone contributes only its local implicit badges "
+                  "(package-of-direct-caller, global-caller unless frame-owned), then the global caller's zone chain and "
+                  "the caller's zone chain (<= 2 zones each, <= 2 proofs per zone, any resource / amount / id in each "
+                  "proof, one simulated resource and one implicit badge per zone)")
+        if kind == "rule":
+            self.what = ("Authorization::auth_zone_stack_matches_rule " + common + ": true exactly when some visible zone "
+                         "holds a matching proof (resource rule: same resource; non-fungible rule: same resource and the id "
+                         "is among the proof's ids) or, for a non-fungible rule, the badge is implicit in that zone or its "
+                         "resource is simulated there; every opened substate handle is closed")
+            self.cover_labels = ["matched by a proof in the parent's parent", "matched by the global-caller badge",
+                                 "frame-owned global caller gives no badge", "own zone's proofs are ignored", "not matched"]
+        else:
+            self.what = ("Authorization::auth_zone_stack_has_amount " + common + ": true exactly when SOME proof of the "
+                         "resource in a visible zone has at least the required amount (each proof individually, whatever "
+                         "other proofs of the same resource precede it); every opened substate handle is closed")
+            self.cover_labels = ["second proof of the resource is the sufficient one", "own zone's proof is ignored",
+                                 "insufficient"]
+
+    def cases(self, tier):
+        if tier == "quick":
+            return [{"p": 1, "q": 1, "g": 0, "h": 0}, {"p": 1, "q": 0, "g": 1, "h": 1}, {"p": 0, "q": 0, "g": 0, "h": 0}]
+        out = []
+        for p in (0, 1):
+            for q in ((0, 1) if p else (0,)):
+                for g in (0, 1):
+                    for h in ((0, 1) if g else (0,)):
+                        out.append({"p": p, "q": q, "g": g, "h": h})
+        return out
+
+    # ---- topology of the current case
+    def _present(self):
+        c = self.case
+        return [z for z in ZONES if z == "A" or (z == "P" and c["p"]) or (z == "Q" and c["p"] and c["q"])
+                or (z == "G" and c["g"]) or (z == "H" and c["g"] and c["h"])]
+
+    def _parent(self, z):
+        c = self.case
+        if z == "A":
+            return "P" if c["p"] else None
+        if z == "P":
+            return "Q" if c["q"] else None
+        if z == "G":
+            return "H" if c["h"] else None
+        return None
+
+    def _names(self):
+        ns = ["rk", "rr", "ri", "amt", "dcp_some", "dcp", "gck", "gca"]
+        for z in self._present():
+            ns += [z + "_sr", z + "_ir", z + "_ii"]
+            for j in range(NPROOFS[z]):
+                ns += ["%s_p%dr" % (z, j), "%s_p%da" % (z, j), "%s_p%di" % (z, j)]
+        return ns
+
+    def inputs(self):
+        d = {k: z3.Int(k) for k in self._names()}
+        oneof = lambda v, xs: z3.Or([v == x for x in xs])
+        pre = [oneof(d["rk"], (0, 1)), oneof(d["rr"], (0, 1, 5, 6)), oneof(d["ri"], (0, 1, 2, 3, 7)), d["amt"] >= 0,
+               d["amt"] <= 10 ** 30, oneof(d["dcp_some"], (0, 1)), d["dcp"] >= 0, d["dcp"] <= 3, oneof(d["gck"], (0, 1)),
+               oneof(d["gca"], (0, 1, 7))]
+        if self.kind == "amount":
+            pre += [d["rk"] == 1, oneof(d["rr"], (0, 1)), d["ri"] == 0]
+        for z in self._present():
+            pre += [oneof(d[z + "_sr"], (0, 1, RES_NONE)), oneof(d[z + "_ir"], (0, 1, 5, 6, RES_NONE)), d[z + "_ii"] >= 0,
+                    d[z + "_ii"] <= 3]
+            for j in range(NPROOFS[z]):
+                pre += [oneof(d["%s_p%dr" % (z, j)], (0, 1)), d["%s_p%da" % (z, j)] >= 0, d["%s_p%da" % (z, j)] <= 10 ** 30,
+                        d["%s_p%di" % (z, j)] >= 0, d["%s_p%di" % (z, j)] <= 3]
+        return d, pre
+
+    # ---- the symbolic zone table
+    def _proof_index(self):
+        idx, k = {}, 0
+        for z in ZONES:
+            for j in range(NPROOFS[z]):
+                idx[(z, j)] = k
+                k += 1
+        return idx
+
+    def _zone_value(self, z):
+        d = self._d
+        pidx = self._proof_index()
+        proofs = StructV("Vec<Proof>", [StructV("Proof", [StructV("Own", [node_v(100 + pidx[(z, j)])])])
+                                          for j in range(NPROOFS[z])])
+        sim = StructV("BTreeSet<ResourceAddress>", [res_v(d[z + "_sr"])])
+        imp = StructV("BTreeSet<NonFungibleGlobalId>", [gid_v(d[z + "_ir"], d[z + "_ii"])])
+        none = lambda ty: EnumV(ty, 0, {0: []})
+        par = self._parent(z)
+        parent = EnumV("Option<Reference>", 1, {1: [StructV("Reference", [node_v(10 + ZONES.index(par))])]}) if par else \
+            none("Option<Reference>")
+        if z == "A":
+            dcp = EnumV("Option<PackageAddress>", d["dcp_some"], {0: [], 1: [StructV("PackageAddress", [IntV(d["dcp"], "u8")])]})
+            if self.case["g"]:
+                caller = EnumV("GlobalCaller", d["gck"], {
+                    0: [StructV("GlobalAddress", [IntV(d["gca"], "u8")])],
+                    1: [StructV("BlueprintId", [StructV("PackageAddress", [IntV(2, "u8")]), UnitV()])]})
+                gc = EnumV("Option<(GlobalCaller, Reference)>", 1, {1: [StructV("(GlobalCaller, Reference)", [
+                    caller, StructV("Reference", [node_v(10 + ZONES.index("G"))])])]})
+            else:
+                gc = none("Option<(GlobalCaller, Reference)>")
+        else:
+            dcp, gc = none("Option<PackageAddress>"), none("Option<(GlobalCaller, Reference)>")
+        return StructV("AuthZone", [proofs, sim, imp, dcp, gc, parent])
+
+    @property
+    def const_overrides(self):
+        return [(re.compile(r"FRAME_OWNED_GLOBAL_MARKER$"), StructV("GlobalAddress", [IntV(7, "u8")]))]
+
+    @property
+    def env_overrides(self):
+        from mirsmt.interp import _ConstRef
+
+        def ok(ret_ty, v):
+            return EnumV(ret_ty, 0, {0: [v]})
+
+        def counter(path, key):
+            job = path.frames["job"]
+            job[key] = IntV(job[key].term + 1, "u32")
+
+        def m_open(interp, path, args, ret_ty, callee):
+            node = _models.deref(interp, path, args[1])
+            k = z3.simplify(node.fields[0].term)
+            if not z3.is_int_value(k):
+                raise _models.Refuse("auth zone node id is not concrete")
+            counter(path, "opened")
+            return ok(ret_ty, IntV(k.as_long() - 10, "u32"))
+
+        def m_close(interp, path, args, ret_ty, callee):
+            counter(path, "closed")
+            return ok(ret_ty, UnitV())
+
+        def m_read(interp, path, args, ret_ty, callee):
+            return ok(ret_ty, _ConstRef("&IndexedScryptoValue", StructV("IndexedScryptoValue", [args[1]])))
+
+        def m_as_typed(interp, path, args, ret_ty, callee):
+            v = _models.deref(interp, path, args[0])
+            k = z3.simplify(v.fields[0].term)
+            zone = self._zone_value(ZONES[k.as_long()])
+            return ok(ret_ty, EnumV("FieldSubstate<AuthZone>", 0, {0: [StructV("FieldSubstateV1<AuthZone>", [
+                zone, EnumV("LockStatus", 0, {0: [], 1: []})])]}))
+
+        def proof_of(interp, path, a):
+            pr = _models.deref(interp, path, a)
+            k = z3.simplify(pr.fields[0].fields[0].fields[0].term).as_long() - 100
+            for (z, j), i in self._proof_index().items():
+                if i == k:
+                    return "%s_p%d" % (z, j)
+            raise _models.Refuse("unknown proof node")
+
+        def m_p_res(interp, path, args, ret_ty, callee):
+            return ok(ret_ty, res_v(self._d[proof_of(interp, path, args[0]) + "r"]))
+
+        def m_p_amount(interp, path, args, ret_ty, callee):
+            return ok(ret_ty, dec_v(self._d[proof_of(interp, path, args[0]) + "a"]))
+
+        def m_p_ids(interp, path, args, ret_ty, callee):
+            i = self._d[proof_of(interp, path, args[0]) + "i"]
+            return ok(ret_ty, StructV("IndexSet<NonFungibleLocalId>", [StructV("NonFungibleLocalId", [IntV(i, "u64")])]))
+
+        def m_eq(interp, path, args, ret_ty, callee):
+            return BoolV(_models.val_eq(_models.deref(interp, path, args[0]), _models.deref(interp, path, args[1])))
+
+        def m_pkg_badge(interp, path, args, ret_ty, callee):
+            return gid_v(5, args[0].fields[0].term)
+
+        def m_gc_badge(interp, path, args, ret_ty, callee):
+            gc = args[0]
+            ident = z3.If(gc.discr == 0, gc.variants[0][0].fields[0].term, 2)
+            return gid_v(6, ident)
+
+        def m_unit(interp, path, args, ret_ty, callee):
+            return UnitV()
+
+        def m_flags(interp, path, args, ret_ty, callee):
+            return StructV("LockFlags", [IntV(0, "u32")])
+
+        def m_key(interp, path, args, ret_ty, callee):
+            return StructV("SubstateKey", [])
+        R = re.compile
+        return [(R(r"KernelSubstateApi<L>>::kernel_open_substate$"), m_open),
+                (R(r"KernelSubstateApi<L>>::kernel_close_substate$"), m_close),
+                (R(r"KernelSubstateApi<L>>::kernel_read_substate$"), m_read),
+                (R(r"IndexedScryptoValue::as_typed::<"), m_as_typed),
+                (R(r"^<Proof as NativeProof>::resource_address::<"), m_p_res),
+                (R(r"^<Proof as NativeProof>::amount::<"), m_p_amount),
+                (R(r"^<Proof as NativeNonFungibleProof>::non_fungible_local_ids::<"), m_p_ids),
+                (R(r"^<(ResourceAddress|GlobalAddress|NonFungibleGlobalId) as PartialEq>::eq$"), m_eq),
+                (R(r"NonFungibleGlobalId::package_of_direct_caller_badge$"), m_pkg_badge),
+                (R(r"NonFungibleGlobalId::global_caller_badge::<"), m_gc_badge),
+                (R(r"^<Reference as Into<NodeId>>::into$"), lambda interp, path, args, ret_ty, callee: args[0].fields[0]),
+                (R(r"^<L as Default>::default$"), m_unit), (R(r"LockFlags::read_only$"), m_flags),
+                (R(r"^<AuthZoneField as Into<SubstateKey>>::into$"), m_key),
+                (R(r"^<(GlobalCaller|BTreeSet<NonFungibleGlobalId>) as Clone>::clone$"), _models.m_clone)]
+
+    def locate(self, prog):
+        return find_function(prog, "auth/authorization.rs", self.fn, nparams=3 if self.kind == "rule" else 4)
+
+    def setup_path(self, path, inp):
+        self._d = {k: lit(v) for k, v in inp.items()}
+        path.frames["job"] = {"api": StructV("Api", []), "opened": IntV(0, "u32"), "closed": IntV(0, "u32")}
+
+    def args(self, inp):
+        d = {k: lit(v) for k, v in inp.items()}
+        zone = const_ref("&NodeId", node_v(10))
+        api = RefV("&mut Y", "job", "api", ())
+        if self.kind == "amount":
+            return [zone, const_ref("&ResourceAddress", res_v(d["rr"])), dec_v(d["amt"]), api]
+        rule = EnumV("ResourceOrNonFungible", d["rk"], {0: [gid_v(d["rr"], d["ri"])], 1: [res_v(d["rr"])]})
+        return [zone, const_ref("&ResourceOrNonFungible", rule), api]
+
+    def extract_outcome(self, o):
+        v = o.value
+        job = o.path.frames["job"]
+        ok = v.discr == 0
+        b = v.variants[0][0].term if v.variants.get(0) else z3.BoolVal(False)
+        return {"ok": ok, "val": z3.And(ok, b), "opened": job["opened"].term, "closed": job["closed"].term}
+
+    def native(self, nat, vals):
+        present = self._present()
+        v = lambda k: vals.get(k, 0)
+        toks = [self.kind, v("rk"), v("rr"), v("ri"), v("amt"), v("dcp_some"), v("dcp"), v("gck"), v("gca"),
+                present.index("G") if "G" in present else -1, len(present)]
+        for z in present:
+            par = self._parent(z)
+            toks += [present.index(par) if par else -1, vals[z + "_sr"], vals[z + "_ir"], vals[z + "_ii"], NPROOFS[z]]
+            for j in range(NPROOFS[z]):
+                toks += [vals["%s_p%dr" % (z, j)], vals["%s_p%da" % (z, j)], vals["%s_p%di" % (z, j)]]
+        t = nat.call("authzone_run", *toks).split()
+        if t[0] == "panic":
+            return {"panic": True, "msg": " ".join(t[1:])}
+        if t[0] != "ok":
+            return {"panic": False, "ok": False, "val": False, "opened": 0, "closed": 0}
+        return {"panic": False, "ok": True, "val": t[1] == "1", "opened": int(t[2]), "closed": int(t[3])}
+
+    native_only_keys = ()
+
+    # ---- the documented meaning
+    def _spec(self, d):
+        def proof_ok(z, j):
+            r, a, i = d["%s_p%dr" % (z, j)], d["%s_p%da" % (z, j)], d["%s_p%di" % (z, j)]
+            if self.kind == "amount":
+                return z3.And(r == d["rr"], a >= d["amt"])
+            return z3.If(d["rk"] == 0, z3.And(r == d["rr"], i == d["ri"]), r == d["rr"])
+
+        def zone_ok(z):
+            cs = [proof_ok(z, j) for j in range(NPROOFS[z])]
+            if self.kind == "rule":
+                cs.append(z3.And(d["rk"] == 0, z3.Or(z3.And(d[z + "_ir"] == d["rr"], d[z + "_ii"] == d["ri"]),
+                                                     d[z + "_sr"] == d["rr"])))
+            return z3.Or(cs)
+        present = self._present()
+        chains = [zone_ok(z) for z in present if z != "A"]
+        local = []
+        if self.kind == "rule":
+            local.append(z3.And(d["rk"] == 0, d["dcp_some"] == 1, d["rr"] == 5, d["ri"] == d["dcp"]))
+            if self.case["g"]:
+                gid = z3.If(d["gck"] == 0, d["gca"], 2)
+                local.append(z3.And(d["rk"] == 0, z3.Not(z3.And(d["gck"] == 0, d["gca"] == 7)), d["rr"] == 6, d["ri"] == gid))
+        return z3.Or(chains + local) if chains + local else z3.BoolVal(False)
+
+    def post(self, inp, res):
+        d = {k: lit(v) for k, v in inp.items()}
+        label = ("true exactly when a visible zone satisfies the rule" if self.kind == "rule" else
+                 "true exactly when some visible proof of the resource has at least the amount")
+        return [("the predicate itself never fails", lit(res["ok"])), (label, lit(res["val"]) == self._spec(d)),
+                ("every opened auth-zone substate is closed again", lit(res["opened"]) == lit(res["closed"]))]
+
+    def covers(self, inp, res):
+        d = {k: lit(v) for k, v in inp.items()}
+        val = lit(res["val"])
+        c = self.case
+        F = z3.BoolVal(False)
+        if self.kind == "amount":
+            second = z3.And(val, d["P_p0r"] == d["rr"], d["P_p0a"] < d["amt"], d["P_p1r"] == d["rr"]) if c["p"] and not c["g"] else F
+            own = z3.And(z3.Not(val), d["A_p0r"] == d["rr"], d["A_p0a"] >= d["amt"])
+            return [("second proof of the resource is the sufficient one", second), ("own zone's proof is ignored", own),
+                    ("insufficient", z3.Not(val))]
+        deep = z3.And(val, d["rk"] == 1, d["Q_p0r"] == d["rr"], d["P_p0r"] != d["rr"], d["P_p1r"] != d["rr"]) if c["q"] else F
+        gcb = z3.And(val, d["rr"] == 6, d["G_ir"] != 6, z3.BoolVal(not c["h"]) if False else z3.BoolVal(True)) if c["g"] else F
+        frame = z3.And(z3.Not(val), d["rr"] == 6, d["rk"] == 0, d["gck"] == 0, d["gca"] == 7, d["ri"] == 7) if c["g"] else F
+        own = z3.And(z3.Not(val), d["rk"] == 1, d["A_p0r"] == d["rr"])
+        return [("matched by a proof in the parent's parent", deep), ("matched by the global-caller badge", gcb),
+                ("frame-owned global caller gives no badge", frame), ("own zone's proofs are ignored", own),
+                ("not matched", z3.Not(val))]
+
+    def vectors(self, rng):
+        out = []
+        for _ in range(30):
+            c = rng.choice(self.cases("thorough"))
+            self.set_case(c)
+            d = dict(c)
+            for n in self._names():
+                if n in ("rk", "dcp_some", "gck"):
+                    d[n] = rng.randrange(2)
+                elif n == "rr":
+                    d[n] = rng.choice([0, 1, 5, 6])
+                elif n in ("ri", "dcp") or n.endswith("_ii") or re.search(r"_p\di$", n):
+                    d[n] = rng.randrange(3)
+                elif n == "amt" or re.search(r"_p\da$", n):
+                    d[n] = rng.choice([0, E18, 5 * E18, 5 * E18 + 1, 10 * E18])
+                elif n == "gca":
+                    d[n] = rng.choice([0, 1, 7])
+                elif n.endswith("_sr"):
+                    d[n] = rng.choice([0, 1, 9, 9])
+                elif n.endswith("_ir"):
+                    d[n] = rng.choice([0, 1, 5, 6, 9, 9])
+                elif re.search(r"_p\dr$", n):
+                    d[n] = rng.randrange(2)
+            if self.kind == "amount":
+                d.update({"rk": 1, "rr": rng.randrange(2), "ri": 0})
+            out.append(d)
+        return out
+
+
+JOBS["C08"] += [AuthZoneStack("rule"), AuthZoneStack("amount")]
